@@ -8,75 +8,63 @@ section
 variable {K : Type} [Add K] [Sub K] [Mul K] [Div K] [Neg K] [OfNat K 0] [OfNat K 1]
   [OfScientific K] [LT K] [LE K] [DecidableLT K] [DecidableLE K] [DecidableEq K]
 
-/-- `test_statistics.py::qmu` (source sha256 4163a196785545ff…): value, with `fit` returning `(muhat, vfree)` and
-`fixed_poi_fit μ` the objective value `fixedVal μ` -/
-def qmu (fixedVal : K → K) (vfree muhat mu : K) : K :=
-  if (0.0 : K) ≤ ((fixedVal mu) - vfree) then
-    if mu < muhat then
+/-- `test_statistics.py::qmu` (source sha256 4163a196785545ff…): value, called with POI bounds `(blo, bhi)`; `fit` handed the POI
+bounds `(l, h)` returns `(muhatOf l h, vfreeOf l h)`, `fixed_poi_fit μ` handed them returns the objective value `fixedValOf l h μ` -/
+def qmu (fixedValOf : K → K → K → K) (vfreeOf muhatOf : K → K → K) (blo bhi mu : K) : K :=
+  if (0.0 : K) ≤ ((fixedValOf blo bhi mu) - (vfreeOf blo bhi)) then
+    if mu < (muhatOf blo bhi) then
       (0.0 : K)
     else
-      ((fixedVal mu) - vfree)
-  else
-    if mu < muhat then
-      (0.0 : K)
-    else
-      (0.0 : K)
-
-/-- `test_statistics.py::qmu_tilde` (source sha256 6abb876c547e707a…): value, with `fit` returning `(muhat, vfree)` and
-`fixed_poi_fit μ` the objective value `fixedVal μ` -/
-def qmu_tilde (fixedVal : K → K) (vfree muhat mu : K) : K :=
-  if (0.0 : K) ≤ ((fixedVal mu) - vfree) then
-    if mu < muhat then
-      (0.0 : K)
-    else
-      ((fixedVal mu) - vfree)
-  else
-    if mu < muhat then
-      (0.0 : K)
-    else
-      (0.0 : K)
-
-/-- `test_statistics.py::tmu` (source sha256 44efdddbb13e78ef…): value, with `fit` returning `(muhat, vfree)` and
-`fixed_poi_fit μ` the objective value `fixedVal μ` -/
-def tmu (fixedVal : K → K) (vfree muhat mu : K) : K :=
-  if (0.0 : K) ≤ ((fixedVal mu) - vfree) then
-    ((fixedVal mu) - vfree)
+      ((fixedValOf blo bhi mu) - (vfreeOf blo bhi))
   else
     (0.0 : K)
 
-/-- `test_statistics.py::tmu_tilde` (source sha256 ab40dc6376fb084a…): value, with `fit` returning `(muhat, vfree)` and
-`fixed_poi_fit μ` the objective value `fixedVal μ` -/
-def tmu_tilde (fixedVal : K → K) (vfree muhat mu : K) : K :=
-  if (0.0 : K) ≤ ((fixedVal mu) - vfree) then
-    ((fixedVal mu) - vfree)
+/-- `test_statistics.py::qmu_tilde` (source sha256 6abb876c547e707a…): value, called with POI bounds `(blo, bhi)`; `fit` handed the POI
+bounds `(l, h)` returns `(muhatOf l h, vfreeOf l h)`, `fixed_poi_fit μ` handed them returns the objective value `fixedValOf l h μ` -/
+def qmu_tilde (fixedValOf : K → K → K → K) (vfreeOf muhatOf : K → K → K) (blo bhi mu : K) : K :=
+  if (0.0 : K) ≤ ((fixedValOf blo bhi mu) - (vfreeOf blo bhi)) then
+    if mu < (muhatOf blo bhi) then
+      (0.0 : K)
+    else
+      ((fixedValOf blo bhi mu) - (vfreeOf blo bhi))
   else
     (0.0 : K)
 
-/-- `test_statistics.py::q0` (source sha256 9b76463a1fe0144d…): value, with `fit` returning `(muhat, vfree)` and
-`fixed_poi_fit μ` the objective value `fixedVal μ` -/
-def q0 (fixedVal : K → K) (vfree muhat mu : K) : K :=
+/-- `test_statistics.py::tmu` (source sha256 44efdddbb13e78ef…): value, called with POI bounds `(blo, bhi)`; `fit` handed the POI
+bounds `(l, h)` returns `(muhatOf l h, vfreeOf l h)`, `fixed_poi_fit μ` handed them returns the objective value `fixedValOf l h μ` -/
+def tmu (fixedValOf : K → K → K → K) (vfreeOf muhatOf : K → K → K) (blo bhi mu : K) : K :=
+  if (0.0 : K) ≤ ((fixedValOf blo bhi mu) - (vfreeOf blo bhi)) then
+    ((fixedValOf blo bhi mu) - (vfreeOf blo bhi))
+  else
+    (0.0 : K)
+
+/-- `test_statistics.py::tmu_tilde` (source sha256 ab40dc6376fb084a…): value, called with POI bounds `(blo, bhi)`; `fit` handed the POI
+bounds `(l, h)` returns `(muhatOf l h, vfreeOf l h)`, `fixed_poi_fit μ` handed them returns the objective value `fixedValOf l h μ` -/
+def tmu_tilde (fixedValOf : K → K → K → K) (vfreeOf muhatOf : K → K → K) (blo bhi mu : K) : K :=
+  if (0.0 : K) ≤ ((fixedValOf blo bhi mu) - (vfreeOf blo bhi)) then
+    ((fixedValOf blo bhi mu) - (vfreeOf blo bhi))
+  else
+    (0.0 : K)
+
+/-- `test_statistics.py::q0` (source sha256 9b76463a1fe0144d…): value, called with POI bounds `(blo, bhi)`; `fit` handed the POI
+bounds `(l, h)` returns `(muhatOf l h, vfreeOf l h)`, `fixed_poi_fit μ` handed them returns the objective value `fixedValOf l h μ` -/
+def q0 (fixedValOf : K → K → K → K) (vfreeOf muhatOf : K → K → K) (blo bhi mu : K) : K :=
   if mu ≠ (0.0 : K) then
-    if (0.0 : K) ≤ ((fixedVal (0.0 : K)) - vfree) then
-      if muhat < (0.0 : K) then
+    if (0.0 : K) ≤ ((fixedValOf blo bhi (0.0 : K)) - (vfreeOf blo bhi)) then
+      if (muhatOf blo bhi) < (0.0 : K) then
         (0.0 : K)
       else
-        ((fixedVal (0.0 : K)) - vfree)
+        ((fixedValOf blo bhi (0.0 : K)) - (vfreeOf blo bhi))
     else
-      if muhat < (0.0 : K) then
-        (0.0 : K)
-      else
-        (0.0 : K)
+      (0.0 : K)
   else
-    if (0.0 : K) ≤ ((fixedVal mu) - vfree) then
-      if muhat < (0.0 : K) then
+    if (0.0 : K) ≤ ((fixedValOf blo bhi mu) - (vfreeOf blo bhi)) then
+      if (muhatOf blo bhi) < (0.0 : K) then
         (0.0 : K)
       else
-        ((fixedVal mu) - vfree)
+        ((fixedValOf blo bhi mu) - (vfreeOf blo bhi))
     else
-      if muhat < (0.0 : K) then
-        (0.0 : K)
-      else
-        (0.0 : K)
+      (0.0 : K)
 
 /-- `calculators.py::AsymptoticCalculator.teststatistic` for test_stat="q" (source sha256 92c4a87699f89cba…),
 with the observed statistic `q` and its Asimov value `qA` symbolic -/
